@@ -19,12 +19,35 @@ def obligations(st):
     return 1
 
 
+def post(scn, tr, a):
+    """Annotates a deadlock witness with the facts the known-findings predicate
+    'async_substep_deadlock' needs (never decides anything itself)."""
+    for v in a.viol["C05"]:
+        if v.get("type") != "Deadlock":
+            continue
+        from ..model import common
+        path = {s["sid"]: tuple(s.get("path", [])) for s in scn["sims"]}
+        weak_into = {c["dst"] for c in scn["conns"] if c.get("weak")}
+        qual = [c for c in scn["conns"] if c.get("async") and common(path[c["src"]], path[c["dst"]]) >= 1
+                and c["src"] in weak_into]
+        v["async_source_with_substeps_in_shared_group"] = bool(qual)
+        if qual and tr.get("sched", {}).get("policy") != "replay":
+            # counterfactual at the scenario level: the same scenario without the async_requests flags,
+            # same schedule policy and seed, completes
+            from ..build import run_case
+            scn2 = dict(scn, conns=[{k: x for k, x in c.items() if k != "async"} for c in scn["conns"]])
+            sched2 = {k: x for k, x in tr["sched"].items() if k not in ("schedule",)}
+            tr2 = run_case(scn2, sched2)
+            v["completes_without_async_flags"] = tr2["outcome"]["kind"] == "ok"
+    return []
+
+
 def run_slice(job):
-    return run_slice_mon(job, PROP, obligations)
+    return run_slice_mon(job, PROP, obligations, post=post)
 
 
 def replay(rep):
-    return replay_mon(rep, PROP)
+    return replay_mon(rep, PROP, post=post)
 
 
 def decide(m, tier):
